@@ -491,6 +491,13 @@ impl Exec {
                 };
                 let ops = ops_str(&self.f, self.slot);
                 let cnt = self.counters();
+                // classify a faulted delivery: after the row write of the completing fragment the call is inside `finish`
+                if matches!(&r, Ok(Err(_))) && self.in_variant && self.variant_prop == "C18" && self.variant_key == "fault-site=any-op" {
+                    if let Some((_, par)) = self.sess {
+                        let par_writes = self.f.log.iter().filter(|op| matches!(op, Op::Write(a, _) if a / self.slot == par)).count();
+                        self.variant_key = if par_writes >= 2 { "fault-site=finish".into() } else { "fault-site=before-finish".into() };
+                    }
+                }
                 // C17: out-of-range index
                 if r.is_err() {
                     o.fail_key("C17", &format!("seg-panic idx={}", if idx == 0 { "0".to_string() } else if idx as usize > self.n { ">n".into() } else { "in-range".into() }), format!("handle_segment(idx={}) panicked", idx));
